@@ -115,7 +115,7 @@ class Built:
     """A reconciliation input built from its abstract description."""
 
 
-def build_input(A, inp, syn=None, unordered=False, root_syn=None):
+def build_input(A, inp, syn=None, unordered=False, root_syn=None, naming="unique"):
     """inp: record with ot, st, lm (0 on internal nodes), c.  syn: optional
     tuple of leaf syntenies (tuple of family ids per object node, () on internal
     nodes).  Returns a Built with the superrec2 input and the node tables."""
@@ -123,6 +123,10 @@ def build_input(A, inp, syn=None, unordered=False, root_syn=None):
     out.ot, out.st = tuple(inp["ot"]), tuple(inp["st"])
     out.otree, out.onodes = build_tree(A.Tree, out.ot, "o")
     out.stree, out.snodes = build_tree(A.Tree, out.st, "s")
+    if naming == "unnamed":   # ancestral nodes without labels, as in the README example
+        for node in out.onodes + out.snodes:
+            if node.children:
+                node.name = ""
     out.oindex = {node: i for i, node in enumerate(out.onodes, start=1)}
     out.sindex = {node: i for i, node in enumerate(out.snodes, start=1)}
     leaf_map = {out.onodes[u - 1]: out.snodes[inp["lm"][u - 1] - 1] for u in leaves_of(out.ot)}
